@@ -804,7 +804,68 @@ func (mpLinkEngine) Exec(op string) string {
 	if err != nil {
 		return mpErrAnswer(err)
 	}
-	return "ok " + mpProjectAll(fds)
+	ans := "ok " + mpProjectAll(fds)
+	if mpSynthDiverges(fds) {
+		// counted in the evidence (op class …+doc-divergence); not part of the correspondence
+		ans += " ~ doc-divergence=synthetic-oneof-name"
+	}
+	return ans
+}
+
+// mpSynthDivergesMsg says whether some synthetic oneof of the message (or of a nested one) is not
+// named the way protoc's GenerateSyntheticOneofs would name it (names of fields and declared
+// oneofs only): the divergence documented in parser/result.go processProto3OptionalFields.
+func mpSynthDivergesMsg(m *descriptorpb.DescriptorProto) bool {
+	synthetic := map[int32]bool{}
+	for _, f := range m.Field {
+		if f.GetProto3Optional() && f.OneofIndex != nil {
+			synthetic[f.GetOneofIndex()] = true
+		}
+	}
+	if len(synthetic) > 0 {
+		names := map[string]bool{}
+		for _, f := range m.Field {
+			names[f.GetName()] = true
+		}
+		for i, o := range m.OneofDecl {
+			if !synthetic[int32(i)] {
+				names[o.GetName()] = true
+			}
+		}
+		for _, f := range m.Field {
+			if !f.GetProto3Optional() || f.OneofIndex == nil {
+				continue
+			}
+			n := f.GetName()
+			if !strings.HasPrefix(n, "_") {
+				n = "_" + n
+			}
+			for names[n] {
+				n = "X" + n
+			}
+			names[n] = true
+			if idx := int(f.GetOneofIndex()); idx >= len(m.OneofDecl) || m.OneofDecl[idx].GetName() != n {
+				return true
+			}
+		}
+	}
+	for _, n := range m.NestedType {
+		if mpSynthDivergesMsg(n) {
+			return true
+		}
+	}
+	return false
+}
+
+func mpSynthDiverges(fds []*descriptorpb.FileDescriptorProto) bool {
+	for _, fd := range fds {
+		for _, m := range fd.MessageType {
+			if mpSynthDivergesMsg(m) {
+				return true
+			}
+		}
+	}
+	return false
 }
 
 var mpQuoted = regexp.MustCompile("`[^`]*`|\"[^\"]*\"|'[^']*'")
@@ -824,6 +885,33 @@ func mpCanonMsg(msg string) string {
 	return m
 }
 
+var mpDefinedAt = regexp.MustCompile(`^([^:]+):\d+:\d+: .* (?:already defined|already defined as a package) at ([^:]+):\d+:\d+`)
+
+// mpDualClass refines the class of a stable-compiler error for the C27 oracle, so that a known
+// difference between the two compilers can be told from a new one of the same rule.
+func mpDualClass(msg string) string {
+	c := mpClassify(msg)
+	switch c {
+	case "dup-symbol", "dup-ext-number":
+		if strings.Contains(msg, "already defined as a package") {
+			return c + "-vs-package"
+		}
+		if m := mpDefinedAt.FindStringSubmatch(msg); m != nil && m[1] != m[2] {
+			return c + "-cross-file"
+		}
+		return c + "-same-file"
+	case "type-unknown", "method-type-unknown":
+		if strings.Contains(msg, "resolved to") {
+			return c + "-resolved-undefined"
+		}
+	case "default-type":
+		if strings.Contains(msg, "expecting enum name, got") {
+			return "default-enum-by-number"
+		}
+	}
+	return c
+}
+
 // Exec of the dual engine: both compilers on the same sources. Compared with the model: the
 // stable compiler's accept/reject. For the oracle: both outcomes and both projections.
 func (mpDualEngine) Exec(op string) string {
@@ -839,7 +927,7 @@ func (mpDualEngine) Exec(op string) string {
 	nfds, nerr := mpCompileExperimental(src, names)
 	old, oldv, oldp := "ok", "ok", "-"
 	if oerr != nil {
-		old, oldv = "err", "err:"+mpClassify(oerr.Error())
+		old, oldv = "err", "err:"+mpDualClass(oerr.Error())
 	} else {
 		oldp = mpProjectAll(ofds)
 	}
@@ -890,6 +978,9 @@ func mpNote(op string) string {
 
 func mpClassOf(op, ans string) string {
 	v := "ok"
+	if strings.HasSuffix(ans, " ~ doc-divergence=synthetic-oneof-name") {
+		v = "ok+doc-divergence:synthetic-oneof-name"
+	}
 	if strings.HasPrefix(ans, "err") {
 		v = "err"
 		if i := strings.Index(ans, " ~ "); i >= 0 {
